@@ -3,7 +3,7 @@
    KVAppendAction.__call__ of /repo, regenerated on every run (Generated/SrcCliArgs.v, configurations ARGS_* of
    harness/src_functions.py), for every record of string primitives and all inputs. *)
 From Coq Require Import ZArith List Bool Lia.
-From Batchie Require Import Lib.Sexp Lib.PyRt Model.Cli Generated.SrcCliArgs Proofs.PyRtLemmas.
+From Batchie Require Import Lib.Sexp Lib.PyRt Model.Cli Generated.SrcCli Generated.SrcCliArgs Proofs.PyRtLemmas Proofs.C06SourceCli.
 Import ListNotations.
 Open Scope Z_scope.
 
@@ -56,4 +56,65 @@ Proof.
     + destruct (zmem t [23; 24]); reflexivity.
   - replace (Z.of_nat (length (w :: w2 :: r)) =? 1) with false; [reflexivity|].
     symmetry. apply Z.eqb_neq. cbn [length]. lia.
+Qed.
+
+(* ---------- part 2: the statements of get_args() after parser.parse_args(), and main() as a whole command ---------- *)
+(* the `if not args.<x>_param: ... = {} else: ... = cast_dict_to_type(...)` block, for any continuation *)
+Lemma cast_block {F O X : Type} (P : pyprims F O) (param : option (list (str * str))) (req : list (str * ann))
+  (k : list (str * pval F O) -> result X) :
+  (if negb (opt_list_truthy param) then k []
+   else dor u <- unwrap param; dor r <- src_cast_dict_to_type F O P u req; k r)
+  = dor ps <- cast_params P param req; k ps.
+Proof.
+  destruct param as [[|x l]|]; cbn [opt_list_truthy negb unwrap res_bind cast_params]; try reflexivity.
+  now rewrite src_cast_dict_is_model.
+Qed.
+
+(* class lookup, required-argument annotations, cast: the three steps every get_args() makes per class-valued option *)
+Lemma resolve_block {Cls F O X : Type} (I : introspect Cls) (P : pyprims F O) (base : base_class) (name : str)
+  (param : option (list (str * str))) (k : option Cls -> list (str * pval F O) -> result X) :
+  (dor c <- i_get_class I s_batchie name base;
+   dor req <- i_required I c;
+   if negb (opt_list_truthy param) then k c []
+   else dor u <- unwrap param; dor r <- src_cast_dict_to_type F O P u req; k c r)
+  = dor cp <- resolve I P base name param; k (fst cp) (snd cp).
+Proof.
+  unfold resolve.
+  destruct (i_get_class I s_batchie name base) as [c|e]; cbn [res_bind]; [|reflexivity].
+  destruct (i_required I c) as [req|e]; cbn [res_bind]; [|reflexivity].
+  rewrite (cast_block P param req (k c)).
+  destruct (cast_params P param req); reflexivity.
+Qed.
+
+Theorem src_cs_get_args_is_model : forall (Cls F O : Type) (I : introspect Cls) (P : pyprims F O) (raw : cs_ns Cls F O),
+  src_cs_get_args Cls F O I P raw = cs_get_args I P raw.
+Proof.
+  intros. unfold src_cs_get_args, cs_get_args. cbv zeta.
+  rewrite <- (resolve_block I P BScorer (cs_scorer raw) (cs_scorer_param raw)
+                (fun c ps => Ok (cs_set_scorer_params (cs_set_scorer_cls raw c) ps))).
+  unfold s_batchie.
+  destruct (i_get_class I [98; 97; 116; 99; 104; 105; 101] (cs_scorer raw) BScorer) as [c|e]; cbn [res_bind]; [|reflexivity].
+  cbn [cs_scorer_cls cs_scorer_param cs_set_scorer_cls].
+  destruct (i_required I c) as [req|e]; cbn [res_bind]; [|reflexivity].
+  apply res_bind_ret.
+Qed.
+
+(* main() as a whole command: get_args() is the translated get_args on the raw namespace, the scorer is `construct` on the
+   class and the parameters the namespace holds *)
+Theorem src_cli_calculate_scores_cmd_is_model :
+  forall (Cls F O : Type) (I : introspect Cls) (P : pyprims F O) (Scr Pl Th Dm Sc H : Type)
+         (construct : Cls -> list (str * pval F O) -> result Sc) (L : cs_lib Scr Pl Th Dm Sc H) (mix : Z -> Z)
+         (raw : cs_ns Cls F O),
+  src_cli_calculate_scores_cmd Cls F O I P Scr Pl Th Dm Sc H construct L mix raw
+  = cli_calculate_scores_cmd I P construct L mix raw.
+Proof.
+  intros. unfold src_cli_calculate_scores_cmd, cli_calculate_scores_cmd. cbv zeta.
+  rewrite src_cs_get_args_is_model.
+  destruct (cs_get_args I P raw) as [a|e]; cbn [res_bind]; [|reflexivity].
+  rewrite <- C06SourceCli.src_cli_calculate_scores_is_model.
+  unfold SrcCli.src_cli_calculate_scores, instantiate. cbv zeta.
+  cbn [cs_with_mk cs_load_screen cs_plates cs_is_observed cs_plate_id cs_mk_scorer cs_load_thetas cs_concat_thetas cs_load_dist
+       cs_concat_dist cs_score_chunk].
+  destruct (cs_load_screen L (cs_data (cs_plain a))); cbn [res_bind]; [|reflexivity].
+  destruct (unwrap (cs_scorer_cls a)); cbn [res_bind]; reflexivity.
 Qed.
